@@ -1772,7 +1772,12 @@ handle_define_directive(const string &args, const YYLTYPE &loc) {
     if (!manifest->_has_parameters) {
       string expr_string = manifest->expand();
       if (!expr_string.empty()) {
+        // Tokenizing the replacement list must not change the visibility of
+        // the manifests that follow (as "#define BEGIN_PUBLISH
+        // __begin_publish" would otherwise do).
+        CPPVisibility saved_vis = preprocessor_vis;
         manifest->_expr = parse_expr(expr_string, global_scope, global_scope, loc);
+        preprocessor_vis = saved_vis;
       }
     }
 
